@@ -67,9 +67,19 @@ def run_job(j):
         opts = subset.Options()
         for k, v in j.get("options", {}).items():
             setattr(opts, k, v)
-        f = TTFont(j["path"], lazy=j.get("lazy"), recalcTimestamp=False)
+        if j["path"].endswith(".ttx"):
+            f0 = TTFont(recalcTimestamp=False)
+            f0.importXML(j["path"])
+            f = TTFont(io.BytesIO(_save(f0)), lazy=j.get("lazy"), recalcTimestamp=False)
+        else:
+            f = TTFont(j["path"], lazy=j.get("lazy"), recalcTimestamp=False)
         s = subset.Subsetter(opts)
-        s.populate(unicodes=j.get("unicodes", []), glyphs=j.get("glyphs", []))
+        glyphs = j.get("glyphs", [])
+        if glyphs == ["*"]:
+            glyphs = f.getGlyphOrder()
+        elif glyphs == ["%half"]:
+            glyphs = f.getGlyphOrder()[::2] + f.getGlyphOrder()[-3:]
+        s.populate(unicodes=j.get("unicodes", []), glyphs=glyphs)
         s.subset(f)
         return _save(f)
     if op == "instance":
